@@ -607,6 +607,92 @@ impl<'a> World<'a> {
     // ------------------------------------------------------------------------------------------
     // in-memory operations (executed on the simulator thread; they contain no gate)
 
+    /// Epilogue (every run that ends with a well-formed file): another process replaces the cache file atomically
+    /// (temp file + rename, content of another length) BETWEEN two file system calls of one `load_cache_data`; every
+    /// gap is tried. Both files are valid, so the load must succeed whichever of them it meets - "concurrent writers
+    /// never leave a file that fails to load" holds for a reader that is in the middle of loading too. The gaps are
+    /// reached through the file-system call points of the preload shim (open / stat family by path).
+    fn epilogue_load_during_replacement(&mut self) {
+        thread_local! {
+            static SWAP: std::cell::RefCell<Option<(PathBuf, PathBuf)>> = const { std::cell::RefCell::new(None) };
+        }
+        extern "C" fn swap_now() {
+            SWAP.with(|s| {
+                if let Some((from, to)) = s.borrow_mut().take() {
+                    let _ = std::fs::rename(from, to);
+                }
+            });
+        }
+        let Some(orig) = self.read_file() else { return };
+        let Some(snap) = parse_file(&orig) else { return };
+        if self.file_state != FileState::Clean {
+            return;
+        }
+        let needle = match self.path.file_name().and_then(|n| n.to_str()) {
+            Some(n) => n.to_string(),
+            None => return,
+        };
+        // the other process's file: the same peers plus one (longer), or nothing at all (shorter)
+        let mut bigger = snap.clone();
+        let extra_key = peer_id(self.plan.ukey, self.plan.n_peers + 7).to_string();
+        let extra_addr = good_addr(self.plan.ukey, self.plan.n_peers + 7, 0);
+        bigger.peers.entry(extra_key).or_default().push((extra_addr, Ent { succ: 1, fail: 0, ls: self.base - Duration::from_secs(61) }));
+        let variants: Vec<Vec<u8>> = vec![
+            render_file(&bigger, &self.net_version.clone(), self.base),
+            render_file(&Snap::default(), &self.net_version.clone(), self.base),
+        ];
+        let cfg = self.cfg.clone().with_cache_path(&self.path);
+        // how many calls by path does one load make?
+        if !simkit::shim::fs_arm(&needle, -1, None) {
+            return;
+        }
+        let _ = catch_unwind(AssertUnwindSafe(|| BootstrapCacheStore::load_cache_data(&cfg)));
+        let n_calls = simkit::shim::fs_disarm();
+        self.rep.probe_n("load_fs_calls_by_path", n_calls.max(0) as u64);
+        for (vi, other) in variants.iter().enumerate() {
+            if other.len() == orig.len() {
+                continue;
+            }
+            for k in 0..n_calls {
+                // the file as it was, the other program's file ready next to it
+                let tmp = self.dir.join(".other-program.tmp");
+                if std::fs::write(&tmp, &orig).and_then(|_| std::fs::rename(&tmp, &self.path)).is_err() || std::fs::write(&tmp, other).is_err() {
+                    self.rep.harness_error = Some("cannot prepare the replacement file".into());
+                    self.stop = true;
+                    return;
+                }
+                SWAP.with(|s| *s.borrow_mut() = Some((tmp.clone(), self.path.clone())));
+                simkit::shim::fs_arm(&needle, k, Some(swap_now));
+                let r = catch_unwind(AssertUnwindSafe(|| BootstrapCacheStore::load_cache_data(&cfg)));
+                simkit::shim::fs_disarm();
+                let fired = SWAP.with(|s| s.borrow_mut().take().is_none());
+                let _ = std::fs::remove_file(&tmp);
+                self.rep.inner_evaluations += 1;
+                if fired {
+                    self.rep.fault("file_replaced_between_two_fs_calls_of_a_load");
+                }
+                match r {
+                    Err(p) => {
+                        let msg = panic_text(p);
+                        return self.viol("load.panic", &[("file", "replaced_during_load".into())], format!("load_cache_data panicked when the file was replaced before its file system call #{k}: {msg}"));
+                    }
+                    Ok(Err(e)) => {
+                        return self.viol(
+                            "load.failed_during_atomic_replacement",
+                            &[("gap", format!("before_fs_call_{k}_of_{n_calls}")), ("other_file", if vi == 0 { "longer" } else { "shorter" }.into())],
+                            format!("a well-formed cache file was atomically replaced by another well-formed one before file system call #{k} of a load, and the load failed: {e}"),
+                        );
+                    }
+                    Ok(Ok(_)) => {}
+                }
+            }
+        }
+        // leave the file as the run left it
+        let tmp = self.dir.join(".other-program.tmp");
+        let _ = std::fs::write(&tmp, &orig).and_then(|_| std::fs::rename(&tmp, &self.path));
+        self.rep.probe("loads_survived_replacement_in_every_gap");
+    }
+
     /// FAULT epilogue (a third of the fault runs): the cache path cannot be replaced (a directory sits there, so the
     /// commit's rename fails) while process 0 flushes. The flush may fail, it must not panic, the store must still
     /// know afterwards what it knew before (nothing reached the disk), and once the path is free again the next
@@ -1638,6 +1724,9 @@ impl<'a> World<'a> {
         }
         if !self.stop && self.plan.mode == "fault" && self.plan.ukey % 3 == 0 {
             self.epilogue_failed_flush();
+        }
+        if !self.stop && self.flights.is_empty() {
+            self.epilogue_load_during_replacement();
         }
         let fin = self.last_bytes.as_ref().and_then(|b| parse_file(b));
         let text = match (&self.last_bytes, &fin) {
